@@ -3,7 +3,7 @@ CHECKS = {
   text=('Theorems over ALL registration programs (any number of handlers, any interleaving of AddHandler / AddNoPublisherHandler / Router.AddMiddleware / Handler.AddMiddleware / '
         'Add*Decorators / Run / RunHandlers) and ALL deliveries about a hand-written executable model of the Router\'s registration state and dispatch (message/router.go, router_context.go), '
         'layered on the C02 model of handleMessage: a message on (subscriber, topic) is processed by exactly the started handlers subscribed there, each once, by its own function only; '
-        'one Publish call on that handler\'s publisher and topic with the chain\'s outputs unmodified in order and nowhere else; outputs in a handler without publisher => Nack and no Publish; '
+        'one Publish call on that handler\'s publisher and topic with the chain\'s outputs unmodified in order and nowhere else; outputs in a handler without publisher (AddNoPublisherHandler or a nil publisher, which gets the same stand-in: nothing is ever called on nil) => Nack and no Publish; '
         'context values inside the function and on produced messages, the own context of each produced message (user values, cancellation) untouched; programs include Handler.Stop, re-added names and failing decorator constructors. Tied to the code on every run: ~500 generated programs (1..6 handlers sharing/not sharing subscribers, topics, publishers; '
         'registrations before/after Run and RunHandlers; concurrent deliveries; re-delivered objects) run on a real Router; every per-copy trace is compared with the model and judged by the proved acceptor c08_monitor.'),
   note=('Trusted: Coq kernel + vm_compute; Go closures/recover/goroutine dispatch as modelled; the scripted fan-out subscriber, publishers, tagging middlewares/decorators and the interning of strings; '
